@@ -66,6 +66,7 @@ structure CM where
   numberOk : List UInt8 → Bool   -- strconv.ParseInt(…,10,64) or ParseFloat(…,64) succeeds on the token
   known : List UInt8 → Bool      -- root.GetType(token) ≠ nil
   depthLimit : Option Nat := none  -- `MaxParseDepth` when the nested constructs call `deeper()` (D03 repaired)
+  listNeedsMember : Bool := false  -- `[]` (a list type without a member type) is a parse error (D107 repaired)
 
 variable (cm : CM)
 
@@ -213,6 +214,7 @@ def readType : Nat → P → (Option Ty × Option Err) × P
         match readType n (reRead p).enter with
         | ((t, some e), p) => ((t, some e), p.leave)
         | ((t, none), p) =>
+          if cm.listNeedsMember && t.isNone then ((none, some p.perr), p.leave) else
           (match skipSp cm p.leave with
            | (none, p) => ((none, some ioErr), p)
            | (some b, p) =>
